@@ -27,7 +27,7 @@ theorem C13_resolve_equivariant (f : String → String) (hf : Resp f) (c : Ctx)
 main links — none of it. -/
 theorem C13_absolute_ignores_ctx (c : Ctx) (inode : Option (List String)) (rest : List String) :
     resolveParts c inode ("" :: rest) = .ok ("" :: rest) := by
-  simp [resolveParts]
+  simp [resolveParts, incompletePath]
 
 /-- the renaming of one name -/
 def ren (old new : String) : String → String := fun s => if s = old then new else s
@@ -152,6 +152,9 @@ theorem C13_actor_splice (c : Ctx) (inode : Option (List String)) (parts : List 
   unfold resolveParts
   simp only [hprep]
   generalize (if parts.head? = some "" then parts else prepend c inode parts) = q
+  by_cases hinc : incompletePath q = true
+  · exact Or.inl ⟨.error .incomplete, fun _ => by simp [hinc]⟩
+  simp only [hinc, Bool.false_eq_true, if_false]
   cases q with
   | nil => exact Or.inl ⟨_, fun _ => rfl⟩
   | cons p0 rest =>
